@@ -11,6 +11,23 @@ CHECKS = {
          'Every swept (kind, ref, version) is pushed through every public construction/conversion/String/Parse path and compared with the tuple itself; order is decided for all pairs of the swept set, the Sort helpers against an independent sort, malformed strings from a table plus mutation grammar. Exploration is the right level: the functions are pure, the defects live at bit-field boundaries which the sweep enumerates completely, the rest is sampled.',
          'trusted: Go integer arithmetic and sort; the harness tuple order. Not covered: refs >= 2^40, negative refs, versions >= 2^16 (outside the statement).'),
 }
+CHECKS.update({
+ 'C01': ('exploration', 'reference-model monitor: independent PBF writer, model-derived expectation compared with Scan/Object/Header',
+         'Every generated file is scanned through the public API and every delivered field compared with the value the format defines (from the writer\'s model, exact integer nanodegrees, tolerance 1e-10). Systematic present/absent toggles of all 33 optional parts at block, group and element level on the same decoder, header fields one by one, plus PRNG files, decoder counts {1,2,5,16}, chunked readers, both zlib back-ends; thorough adds -race and -asan builds.',
+         'trusted: the harness writer (protowire, compress/zlib). Not covered: plain Node groups, zero-node dense groups, LZMA blobs, files beyond the generated size classes.'),
+ 'C02': ('exploration', 'schedule perturbation at reader/decoder-callback/consumer + Go race detector + event-log exactly-once monitor',
+         'Files of 12-60 blocks are scanned with 1..32 decoders while delays are injected in the io.Reader (reader goroutine), in the Filter callbacks (decoder goroutines) and in the consumer loop; the oracle compares the delivered sequence with the model, checks exactly-once filter delivery, compares every retained object at delivery and after the scan, and fails on any race report with a library frame. The evidence counts distinct block-completion permutations and runs with inversions. Schedules are sampled.',
+         'trusted: Go race detector (happens-before, only on executed paths). Schedules not produced by the perturbation plans are not covered.'),
+ 'C06': ('fault_enumeration', 'exhaustive cut-point and damage-class enumeration in crash/hang-isolated child processes',
+         'All byte offsets of small files are used as cut points; 43 damage classes are applied to header/first/middle/last block; a non-EOF I/O error is injected at every Read call. Oracle: exactly the objects of the intact blocks, error iff the cut is not a block boundary / the damage is detectable, the very injected error for I/O faults; a child that dies or wedges is the observation crash/hang.',
+         'trusted: block layout reported by the harness writer; hang classification by goroutine dump. asan build (thorough) watches native zlib on corrupt compressed data.'),
+ 'C08': ('exploration', 'monitors inside the Filter callbacks + subsequence oracle + post-return snapshot comparison',
+         'Filter callbacks log every call and compare the element they are handed with the model element at that file position; the delivered sequence must be the model sequence filtered by the same pure predicate and skip flags; every returned object is snapshotted at return and compared after the scan. 8 skip masks x 9 predicate classes per type x decoders {1,3,8}.',
+         'trusted: the PBF model (validated by C01). Predicates are pure and never retain their argument.'),
+ 'C09': ('fault_enumeration', 'offset monitor after every Scan against the writer\'s block layout + resume scans at every reported offset',
+         'Every stop position k of each file is observed (both offsets read after every Scan and compared with the block layout), a second scanner is started at every distinct reported offset and at the previous offset and must deliver exactly the model suffix with a nil header; real Scan x k, Close, resume histories for sampled k; skip masks create fully empty blocks; decoders {1,2,4,16}.',
+         'trusted: block layout from the harness writer. After the terminal Scan only the resume consequence is asserted.'),
+})
 PENDING = 'check not built yet in this revision of /verif (planned in DESIGN.md section 4); no verdict is claimed'
 
 checks, na = [], []
